@@ -137,6 +137,11 @@ def version_table(table, manager=None):
         Without it the default format '%s_version' is assumed.
     """
     if manager is not None:
+        # The table of a versioned model: the model may give the name format
+        # in its own __versioned__, the tables built are the reference.
+        for cls, built in manager.tables.items():
+            if cls.__table__ is table:
+                return built
         name = manager.options['table_name'] % table.name
     else:
         name = table.name + '_version'
